@@ -65,7 +65,12 @@ fn project(p: &Program) -> Proj {
         && frame_keys == keys(&r.frames)
         && p.extern_pragma_map.to_instructions().iter().map(text_of).collect::<Vec<_>>()
             == r.ext.iter().map(|kv| kv.1.clone()).collect::<Vec<_>>()
-        && p.body_instructions().map(text_of).collect::<Vec<_>>() == r.body;
+        && p.body_instructions().map(text_of).collect::<Vec<_>>() == r.body
+        // cross-check of the independently computed EXTERN keys (from the AST) against the keys the map holds
+        && p.extern_pragma_map.clone().into_iter().map(|(k, _)| match k {
+            Some(n) => format!("some:{n}"),
+            None => "none".to_string(),
+        }).collect::<Vec<_>>() == keys(&r.ext);
     r
 }
 
@@ -100,14 +105,36 @@ fn add_case(ctx: &mut Ctx, a: &Program, b: &Program) {
         let mut acc = a.clone();
         acc += b.clone();
         let (ps, pacc) = (project(&sum), project(&acc));
+        // sibling route: feed B's listing to A instruction by instruction
+        let mut via = a.clone();
+        via.add_instructions(b.to_instructions());
+        let pvia = project(&via);
         tagged(
             "out",
             vec![
                 encode(&ps),
                 encode(&pacc),
                 tagged("eq", vec![boolean(sum == acc)]),
-                tagged("getters", vec![boolean(inputs_ok && ps.getters_ok && pacc.getters_ok)]),
+                tagged("getters", vec![boolean(inputs_ok && ps.getters_ok && pacc.getters_ok && pvia.getters_ok)]),
+                encode(&pvia),
             ],
+        )
+    });
+}
+
+/// (a + b) + c against a + (b + c), with the intermediate sums
+fn add3_case(ctx: &mut Ctx, a: &Program, b: &Program, c: &Program) {
+    let input = tagged("add3", vec![encode(&project(a)), encode(&project(b)), encode(&project(c))]);
+    ctx.case(input, || {
+        let ab = a.clone() + b.clone();
+        let bc = b.clone() + c.clone();
+        let left = ab.clone() + c.clone();
+        let mut right = a.clone();
+        right += bc.clone();
+        tagged(
+            "out3",
+            vec![encode(&project(&ab)), encode(&project(&bc)), encode(&project(&left)), encode(&project(&right)),
+                 tagged("eq", vec![boolean(left == right)])],
         )
     });
 }
@@ -175,6 +202,13 @@ fn run(ctx: &mut Ctx) {
         // calibrations-only programs (Program::is_empty() is true for them)
         ("DEFCAL X 0:\n\tNOP\nDEFCAL MEASURE 0 addr:\n\tNOP", ""),
         ("DEFCAL X 0:\n\tNOP", "DEFCAL X 0:\n\tDELAY 0 1\nDEFCAL MEASURE 1:\n\tFENCE 1"),
+        // every flavour of "empty": Program::new(), calibrations only (is_empty() is true), body only, definitions only
+        ("DEFCAL X 0:\n\tNOP", "X 1"),
+        ("X 1", "DEFCAL X 0:\n\tNOP"),
+        ("DECLARE ro BIT", "DEFCAL MEASURE 0 addr:\n\tNOP"),
+        ("DEFCAL X 0:\n\tNOP", "DEFCAL DAGGER X 0:\n\tNOP\nDEFCAL X 0:\n\tDELAY 0 1"),
+        ("PRAGMA EXTERN foo legacy \"(c : REAL)\"", "PRAGMA EXTERN \"OCTET\""),
+        ("PRAGMA EXTERN foo legacy \"(c : REAL)\"\nPRAGMA EXTERN \"OCTET\"", "PRAGMA EXTERN foo 1\nPRAGMA EXTERN bar legacy"),
         // used qubits only through calibrations
         ("DEFCAL X 3:\n\tNOP", "DEFCAL X 4:\n\tNOP\nX 5"),
     ];
@@ -183,6 +217,28 @@ fn run(ctx: &mut Ctx) {
         add_case(ctx, &a, &b);
         add_case(ctx, &b, &a);
         add_case(ctx, &a, &a);
+    }
+
+    // 1b. more than 32 definitions per container, half of them keyed in both
+    {
+        let mk = |lo: u32, hi: u32, size: u32| {
+            let mut t = String::new();
+            for i in lo..hi {
+                t.push_str(&format!("DECLARE r{i} BIT[{size}]\nDEFWAVEFORM w{i}:\n\t{size}\nDEFCAL G{i} 0:\n\tDELAY 0 {size}\nPRAGMA EXTERN e{i} \"INTEGER\"\n"));
+            }
+            program_of(&parse_all(&t))
+        };
+        let (a, b) = (mk(0, 70, 1), mk(35, 105, 2));
+        add_case(ctx, &a, &b);
+        add_case(ctx, &b, &a);
+        add3_case(ctx, &a, &b, &a);
+    }
+    // 1c. triples from the corpus
+    for w in corpus.windows(2) {
+        let (a, b) = (program_of(&parse_all(w[0].0)), program_of(&parse_all(w[0].1)));
+        let c = program_of(&parse_all(w[1].1));
+        add3_case(ctx, &a, &b, &c);
+        add3_case(ctx, &c, &a, &a);
     }
 
     // 2. exhaustive pairs of short programs over an alphabet with two values per key in every kind
@@ -207,6 +263,9 @@ fn run(ctx: &mut Ctx) {
         "PRAGMA EXTERN \"OCTET\"",
         "PRAGMA EXTERN \"REAL\"",
         "PRAGMA EXTERN 5 \"INTEGER\"",
+        "PRAGMA EXTERN foo legacy \"(c : REAL)\"",
+        "PRAGMA EXTERN bar legacy \"(c : REAL)\"",
+        "DEFCAL DAGGER X 0:\n\tNOP",
     ]
     .iter()
     .map(|t| qvh::progs::parse_one(t))
@@ -237,7 +296,11 @@ fn run(ctx: &mut Ctx) {
                 return Program::new();
             }
             let mut v = pools.random_defs(rng, 10);
-            v.extend(pools.random_body(rng, 6));
+            if rng.chance(1, 12) {
+                v.retain(|d| matches!(d, Instruction::CalibrationDefinition(_) | Instruction::MeasureCalibrationDefinition(_)));
+            } else {
+                v.extend(pools.random_body(rng, 6));
+            }
             // interleave: definitions and body instructions in any order
             for i in (1..v.len()).rev() {
                 let j = rng.below(i as u64 + 1) as usize;
@@ -248,5 +311,9 @@ fn run(ctx: &mut Ctx) {
         let a = mk(&mut rng);
         let b = if rng.chance(1, 10) { a.clone() } else { mk(&mut rng) };
         add_case(ctx, &a, &b);
+        if rng.chance(1, 4) {
+            let c = if rng.chance(1, 5) { a.clone() } else { mk(&mut rng) };
+            add3_case(ctx, &a, &b, &c);
+        }
     }
 }
